@@ -197,14 +197,28 @@ class OPA(BaseModelSingleSet):
         target = target.rename({"mode": "feature1"})
         # -> target (feature1 x dummy)
 
-        # Solve the symmetric eigenvalue problem
-        eigensolver = Decomposer(
-            n_modes=self._params["n_modes"], flip_signs=False, solver="full"
+        # Solve the symmetric eigenvalue problem. The eigenvalues (decorrelation times)
+        # can be negative for anti-persistent series, so an SVD (which returns their
+        # absolute values) must not be used here
+        n_modes = self._params["n_modes"]
+
+        def _leading_eigenpairs(A):
+            eigenvalues, eigenvectors = np.linalg.eigh(0.5 * (A + A.T))
+            idx = np.argsort(eigenvalues)[::-1][:n_modes]
+            return eigenvectors[:, idx], eigenvalues[idx]
+
+        U, lbda = xr.apply_ufunc(
+            _leading_eigenpairs,
+            target,
+            input_core_dims=[("feature1", "dummy")],
+            output_core_dims=[("feature1", "mode"), ("mode",)],
+            dask="allowed",
         )
-        eigensolver.fit(target, dims=("feature1", "dummy"))
-        U = eigensolver.U_
+        mode_coords = np.arange(1, n_modes + 1)
+        U = U.assign_coords(mode=mode_coords)
         # -> U (feature1 x mode)
-        lbda = eigensolver.s_
+        lbda = lbda.assign_coords(mode=mode_coords)
+        lbda.name = "s"
         # -> lbda (mode)
         # U, lbda, ct = xr.apply_ufunc(
         #     np.linalg.svd,
